@@ -18,7 +18,7 @@ ASSUMPTIONS = ["CrossHair's int/bytes/struct models (counter-checked by differen
                "typed classes normalise the R and P bits on construction: typed decodes are compared modulo exactly those two bits, generic decodes byte-exactly"]
 BOUNDS = {"quick": "header: all 2^8 versions/flag octets, all 2^24 command codes, all 32-bit ids; 0..3 AVPs with symbolic headers and fixed payload lengths <= 4 B, one grouped (nesting 2); search: fixed 7-node tree shape, node identities symbolic over a 4-element pool (2 codes x 2 vendors), paths of length 1..3",
           "thorough": "same with more payload-length combinations and both tree shapes"}
-OUTSIDE = ["more than 3 top-level AVPs", "messages near 64 KiB (sizes: C01 lemmas)", "search paths of length 4", "nesting > 3"]
+OUTSIDE = ["more than 3 top-level AVPs", "messages near 64 KiB (sizes: C01 lemmas)", "search paths of length 4", "nesting > 3", "searches after the AVP list was mutated in place (msg.avps.append / typed attribute changes) - only append_avp and the avps setter are histories of the search obligations"]
 
 REG = dict(cmds.all_commands)          # live registry, re-read every run
 GL, GV = 0xf0000010, 99                 # run-time registered Grouped under vendor 0 and vendor 99
@@ -324,6 +324,50 @@ def search(b0: bool, b1: bool, b2: bool, b3: bool, b4: bool, b5: bool, b6: bool,
     return hx.check(inputs, (r0, r1, r2, r3, r4), (e4, e1, e2, e1, e4), "find_avps != reference tree walk (wire order, exact path, no cache leak between a path, its prefix and its siblings)")
 
 
+def search_hist(b0: bool, b1: bool, b2: bool, b3: bool, b4: bool, b5: bool, b6: bool, s2: bool, alt_first: bool, late: bool) -> bool:
+    """
+    post: _
+    """
+    hx.begin()
+    shape = SHAPES[P["shape"]]
+    plen, final_grouped = P["plen"], P["final_grouped"]
+    inputs = (b0, b1, b2, b3, b4, b5, b6, s2, alt_first, late)
+    vend = [GV if b else 0 for b in (b0, b1, b2, b3, b4, b5, b6)]
+    objs = {}
+    for n in sorted(range(7), reverse=True):
+        if n in shape["grouped"]:
+            g = AvpGrouped(GL, vend[n])
+            g.value = [objs[c] for c in shape["kids"].get(n, [])]
+            objs[n] = g
+        else:
+            objs[n] = Avp(LEAF, vend[n], bytes([0xA0 + n]))
+    path = [(GL, 0) for i in range(plen - 1)] + [(GL if final_grouped else LEAF, GV if s2 else 0)]
+
+    def ids(avps):
+        return [([n for n in range(7) if objs[n] is a] + [-1])[0] for a in avps]
+    try:
+        top = [objs[n] for n in shape["top"]]
+        # history before the search under test: (a) the same path looked up in ANOTHER list through alt_list=,
+        # (b) the same path looked up on the message while its last top-level AVP was not yet appended
+        m = Message(MessageHeader(1, 0, 0x80, 0xabcdef, 1, 2, 3), top[:-1] if late else list(top))
+        ra = None
+        if alt_first:
+            other = [Avp(LEAF, GV if s2 else 0, b"other")] if plen == 1 and not final_grouped else []
+            ra = len(m.find_avps(*path, alt_list=other))
+        early = ids(m.find_avps(*path))
+        if late:
+            m.append_avp(top[-1])
+        r1 = ids(m.find_avps(*path))
+        r_alt = ids(m.find_avps(*path, alt_list=top[:1]))       # searching another list must search that list
+    except Exception as e:
+        return hx.fail(inputs, "raised " + type(e).__name__)
+    e_early = _ref_find(shape, shape["top"][:-1] if late else shape["top"], path, vend)
+    e1 = _ref_find(shape, shape["top"], path, vend)
+    e_alt = _ref_find(shape, shape["top"][:1], path, vend)
+    exp_ra = None if not alt_first else (1 if plen == 1 and not final_grouped else 0)
+    return hx.check(inputs, (ra, early, r1, r_alt), (exp_ra, e_early, e1, e_alt), "find_avps after an alt_list search / after append_avp != reference tree walk of the tree as it is now")
+
+
 def specs(tier, seed, carve):
     q = tier == "quick"
     out = [dict(id="hdr_enc", fn="hdr_enc", params={}, timeout=120, bound="all versions, lengths (24 bit), flag octets, command codes (24 bit), 32-bit ids")]
@@ -363,4 +407,10 @@ def specs(tier, seed, carve):
                 out.append(dict(id="search/%s/plen%d/final%s" % (shape, plen, "G" if fg else "L"), fn="search", params={"shape": shape, "plen": plen, "final_grouped": fg},
                                 timeout=300 if q else 900,
                                 bound="tree shape %s (7 nodes, 3 grouped, nesting 3), every vendor assignment (same code under two vendors), every path of length %d ending in a %s identity, preceded by its prefix, followed by the vendor-flipped path, the first path again and the prefix again" % (shape, plen, "grouped" if fg else "leaf")))
+    for shape in (("a",) if q else ("a", "b")):
+        for plen in ((1, 2) if q else (1, 2, 3)):
+            for fg in (0, 1):
+                out.append(dict(id="search_hist/%s/plen%d/final%s" % (shape, plen, "G" if fg else "L"), fn="search_hist", params={"shape": shape, "plen": plen, "final_grouped": fg},
+                                timeout=300 if q else 900,
+                                bound="tree shape %s, every vendor assignment, path of length %d; history before the search: optionally the same path searched in another list (alt_list=), optionally the same path searched before the last top-level AVP was appended (append_avp); then an alt_list search of a sub-list" % (shape, plen)))
     return out
